@@ -63,6 +63,13 @@ CLAIMED["C20"] = (
     "symbolic lanelet lengths and range limit, and every returned route is checked against the stated route rules.",
     "3 vertices per polyline; graphs of <= 4 lanelets; floats as reals; termination = exhaustion of the path tree within the "
     "budget", "2/C20")
+CLAIMED["C11"] = (
+    "Symbolic-choice programs of public mutators interleaved with queries (trajectory prediction, dynamic obstacle, lanelet, "
+    "lanelet network, traffic-light cycle) run on the real objects; after each program every query is compared, by the solver, "
+    "with the same query on an object rebuilt through the public constructors from the current primary data; the history clause "
+    "of update_initial_state is checked for symbolic max_history_length and number of updates.",
+    "programs of <= 2 (quick) / 3 (thorough) operations; symbolic motions, states, query points and time steps; the network "
+    "has 3-4 axis-parallel lanelets; cached lanelet distances are compared after translations only", "2/C11")
 NOT_YET = {}
 
 props = [json.loads(l) for l in open(os.path.join(ROOT, "properties.jsonl"))]
